@@ -152,6 +152,13 @@ def gen_cases(rng, tier):
         out.append(Case("doc", [b"a = " + lit + b"\n"], {"kind": "limit-literal", "expect": exp}))
     for n, exp in [(78, "ok"), (79, "ok"), (80, "err"), (200, "err")]:
         out.append(Case("doc", [b"a = " + b"[" * n + b"]" * n + b"\n"], {"kind": "limit-nesting", "expect": exp}))
+    # width is not nesting: wide containers of containers are valid at any width (also inside inline tables, where the parser
+    # computes the nesting of each pair's value)
+    for n in (2, 77, 78, 79, 80, 200):
+        for elem in (b"[0]", b"{x = 1}", b"{y.z = [1]}"):
+            wide = b"[" + b", ".join([elem] * n) + b"]"
+            for text in (b"a = " + wide + b"\n", b"a = {p = " + wide + b"}\n", b"[t]\nq.r = {p = " + wide + b", s = 1}\n"):
+                out.append(Case("doc", [text], {"kind": "limit-width", "expect": "ok"}))
     out.extend(datetime_grid())
     return out
 
